@@ -107,3 +107,27 @@ META = {
                             "thorough": ["probe_points", "cfg_jit", "cfg_vmap", "cfg_jitvmap"]},
     },
 }
+
+DST = "deterministic simulation with fault injection"
+CLAIMS = {
+    "C01": dict(text="seeded search over generated programs and operation histories; every simulate/assess compared with an independent reference PPL; small discrete programs covered by complete outcome trees (simulated distribution == assessed density outcome by outcome)",
+                ref="DESIGN.md 4 C01", note="PPL-ref, scipy.special, JAX/XLA CPU, jaxcompat adapter trusted; bounded program sizes",
+                technique=DST + " (SCRIPTED randomness seam + outcome-tree explorer, REAL eager/jit/vmap, faults between operations)"),
+    "C02": dict(text="seeded search over programs x constraint subsets x randomness regimes; per-run weight identity, scripted routing of unconstrained sites, complete outcome trees giving sum P*exp(weight) == brute-force marginal",
+                ref="DESIGN.md 4 C02", note="as C01", technique=DST + " (SCRIPTED randomness seam + outcome-tree explorer)"),
+    "C03": dict(text="stateful simulation of update transitions against a reference trace: density ratio (also across Cond branch switches), persistence, discard, round trip",
+                ref="DESIGN.md 4 C03", note="as C01", technique=DST + " (trace state machine vs reference model, faults between transitions)"),
+    "C04": dict(text="stateful simulation of regenerate transitions with generated selection expressions; scripted routing shows exactly the selected leaves are redrawn from the conditional prior; MH weight identity; definedness",
+                ref="DESIGN.md 4 C04", note="as C01", technique=DST + " (trace state machine + SCRIPTED randomness seam)"),
+    "C05": dict(text="long seeded histories of edits and inference moves with exception/cache-loss/re-entrancy faults; trace re-derived from the reference after every step; telescoping along two paths",
+                ref="DESIGN.md 4 C05", note="as C01", technique=DST + " (trace state machine, histories + fault sequences)"),
+    "C06": dict(text="seeded search over generated seeded functions and interleaved histories of noise operations and faults; every probe point compared bit-for-bit with a golden from a pristine interpreter and across eager/jit/vmap/jit(vmap)",
+                ref="DESIGN.md 4 C06", note="trusts JAX/XLA CPU determinism, threefry, the jaxcompat adapter; sampled histories, not all",
+                technique=DST + " (operation/fault histories over the process-global state seams, pristine-process golden)"),
+    "C07": dict(text="TRACER runs expose the key delivered to every (site, iteration, lane); pairwise distinctness is exact; marginal/independence of real samplers by two-stage tests over key batches",
+                ref="DESIGN.md 4 C07", note="threefry independence for distinct keys trusted", technique=DST + " (TRACER randomness seam: key-fingerprint distributions under the real Seed/ModularVmap)"),
+}
+NOT_APPLICABLE = [
+    {"property_id": "C15", "reason": "pure function of its input: programs without random choices have no sample site, key, hidden state, history or fault that could change jvp_estimate/grad_estimate; deciding it is differential testing against jax.jvp, not simulation (DESIGN.md 5)"},
+]
+NOTES = "All checks: ./check <ID> --tier quick|thorough [--seed N] [--replay F]; one integer (VERIF_SEED) decides every run; replay files under replays/<ID>/."
